@@ -57,7 +57,10 @@ def run(rep):
         elif v_ is _os.environ: scope[k_] = VObj(z3.Const('os_environ', M.Obj))
     ex = Exec(uni, scope, call_model=cm, name='get_code'); ex.fields_mode = True; ex.method_names = {'match', 'get_code', 'encode', 'hexdigest', 'get', 'setdefault'}; ex.fstr_eval_calls = True
     pre = (M.inst(CONF, uni.const(BeartypeConf)), CONF != uni.const(None))
-    outs = ex.run_function(node, St((), pre), (VObj(SELF), VObj(FULL)), {}, fobj)
+    # the global at entry is ARBITRARY (another thread's hooked import may have its patch installed right now): restoring "what was there before" is
+    # only right for nested use; the loader must leave the ORIGINAL function behind
+    PRIOR = VObj(z3.Const('cache_from_source_at_entry', M.Obj))
+    outs = ex.run_function(node, St((), pre).hset(('global', be.__name__, 'cache_from_source'), PRIOR), (VObj(SELF), VObj(FULL)), {}, fobj)
     outs = [('return', s, v) for s, v in outs] + [('raise', s, v) for s, v in ex.raised]
     prover = discharge.Prover(uni.axioms())
     for ob in ex.obls:
@@ -72,7 +75,7 @@ def run(rep):
         stores = [e for e in evs if e[0] == 'global_store']
         tag = f'path{pi}'
         # restore: whatever happened, the global ends up being the original function (or was never touched)
-        ok = final is None or (isinstance(final, VPy) and final.o is ORIG)
+        ok = (final is PRIOR and not stores) or (isinstance(final, VPy) and final.o is ORIG)      # untouched, or the original constant - never 'whatever was there'
         rep.add(f'C16.get_code.post.restore.{tag}', 'proved' if ok else 'refuted', backend='structural', where=f'completion {kind}: importlib._bootstrap_external.cache_from_source ends as ' + ('the original' if ok else repr(final)))
         if len(sg) != 1:
             rep.add(f'C16.get_code.post.one_compile.{tag}', 'refuted', backend='structural', where=f'{len(sg)} calls of SourceFileLoader.get_code'); continue
@@ -81,11 +84,11 @@ def run(rep):
         r = prover.prove(list(s.pc), z3.Not(z3.Bool('unhooked'))); hooked_path = r.status == 'proved'
         # a path that never asked (the blacklist of packages beartype never transforms) is an unhooked one
         if not hooked_path:
-            ok = during is None or (isinstance(during, VPy) and during.o is ORIG)
+            ok = during is None or during is PRIOR or (isinstance(during, VPy) and during.o is ORIG)
             rep.add(f'C16.get_code.post.unhooked_compiles_unpatched.{tag}', 'proved' if (ok and not stores) else 'refuted', backend='structural', where='a module that is not hooked is compiled with the cache function untouched (unmarked cache file)')
         else:
             nh += 1
-            ok = during is not None and not (isinstance(during, VPy) and during.o is ORIG)
+            ok = during is not None and during is not PRIOR and not (isinstance(during, VPy) and during.o is ORIG)
             rep.add(f'C16.get_code.post.hooked_compiles_patched.{tag}', 'proved' if ok else 'refuted', backend='structural', where='a hooked module is compiled while the beartype-specific cache function is installed (marked cache file)')
             if ok: installed.append((during, s))
             # the configuration the transformer reads during this compile IS the configuration the module is hooked under (and the marker is derived from)
